@@ -17,6 +17,7 @@ package sparseindex
 import (
 	"math"
 
+	"github.com/openGemini/openGemini/lib/record"
 	"github.com/openGemini/openGemini/lib/util/lifted/vm/protoparser/influx"
 )
 
@@ -38,19 +39,35 @@ func NewRange(left, right *FieldRef, li, ri bool) *Range {
 }
 
 // turnOpenRangeIntoClosed convert an open range to a closed range. for example, turn (0, 3) into [1, 2].
+// The closed bound is a new FieldRef: a bound may refer to a row of the primary index itself
+// (or be an infinity that only carries a row number), which must be neither written nor indexed.
 func (r *Range) turnOpenRangeIntoClosed() {
-	if len(r.left.cols) > 0 && !r.leftIncluded && r.left.cols[r.left.column].dataType == influx.Field_Type_Int {
-		if val, _ := r.left.cols[r.left.column].column.IntegerValue(r.left.row); val != math.MaxInt64 {
-			r.left.cols[r.left.column].column.UpdateIntegerValue(val+1, false, r.left.row)
-			r.leftIncluded = true
-		}
+	if val, ok := openIntegerBound(r.left, r.leftIncluded); ok && val != math.MaxInt64 {
+		r.left = newIntegerFieldRef(val + 1)
+		r.leftIncluded = true
 	}
-	if len(r.right.cols) > 0 && !r.rightIncluded && r.right.cols[r.right.column].dataType == influx.Field_Type_Int {
-		if val, _ := r.right.cols[r.right.column].column.IntegerValue(r.right.row); val != math.MinInt64 {
-			r.right.cols[r.right.column].column.UpdateIntegerValue(val-1, false, r.right.row)
-			r.rightIncluded = true
-		}
+	if val, ok := openIntegerBound(r.right, r.rightIncluded); ok && val != math.MinInt64 {
+		r.right = newIntegerFieldRef(val - 1)
+		r.rightIncluded = true
 	}
+}
+
+// openIntegerBound returns the value of a finite, non-null integer bound that is excluded from its range.
+func openIntegerBound(f *FieldRef, included bool) (int64, bool) {
+	if included || len(f.cols) == 0 || f.IsPositiveInfinity() || f.IsNegativeInfinity() {
+		return 0, false
+	}
+	if f.cols[f.column].dataType != influx.Field_Type_Int {
+		return 0, false
+	}
+	val, isNil := f.cols[f.column].column.IntegerValue(f.row)
+	return val, !isNil
+}
+
+func newIntegerFieldRef(val int64) *FieldRef {
+	col := &record.ColVal{}
+	col.AppendInteger(val)
+	return NewFieldRef([]*ColumnRef{NewColumnRef("", influx.Field_Type_Int, col)}, 0, 0)
 }
 
 // leftLEQ x is to the right for the left point of the range.
